@@ -234,6 +234,13 @@ func (l *lexer) next(allowRegex bool) token {
 		return l.newToken(tt)
 	}
 
+	if lookupSymbol2(ch) != nil {
+		// The first character of a two-character symbol that
+		// is not a symbol on its own (a lone '!' or '~'). It
+		// ends any name before it and is a name by itself.
+		return l.newToken(typeName)
+	}
+
 	if ch == '"' || ch == '\'' {
 		l.ignore()
 		return l.scanString(ch)
@@ -333,12 +340,15 @@ func (l *lexer) scanNumber() token {
 		l.accept(isNonZeroDigit)
 		l.acceptAll(isDigit)
 	}
-	if l.acceptRune('.') {
+	if pos := l.current; l.acceptRune('.') {
 		if !l.acceptAll(isDigit) {
 			// If there are no digits after the decimal point,
 			// don't treat the dot as part of the number. It
 			// could be part of the range operator, e.g. "1..5".
-			l.backup()
+			// (backup cannot be used here: the failed look-ahead
+			// has already backed up once.)
+			l.current = pos
+			l.width = 0
 			return l.newToken(typeNumber)
 		}
 	}
@@ -457,6 +467,10 @@ func (l *lexer) backup() {
 	// is called again, we don't need to repeat the call
 	// to DecodeRuneInString.
 	l.current -= l.width
+	// Only one backup is supported per rune read. Forget the
+	// width so that a second backup cannot move the position
+	// by the width of a different (possibly multi-byte) rune.
+	l.width = 0
 }
 
 func (l *lexer) ignore() {
